@@ -15,6 +15,7 @@ Variable ops : list fop.
 Notation N := (List.length ops).
 Definition okey (i : nat) : Z := f_key (opn ops i).
 Definition mut (i : nat) : Prop := is_mut (opn ops i) = true.
+Definition eff (i : nat) : Prop := is_eff (opn ops i) = true.
 
 Record fs_inv (st : fstate) : Prop := {
   v_next : 1 <= f_next st;
@@ -23,9 +24,9 @@ Record fs_inv (st : fstate) : Prop := {
   v_new : forall i, (N <= i)%nat -> f_phase st i = PNew;
   fv_range : forall k, 0 <= f_ver st k < f_next st;
   fv_wit : forall k, (f_ver st k = 0 /\ f_fs st k = None) \/
-                     exists i, (i < N)%nat /\ mut i /\ okey i = k /\ applied (f_phase st i) (f_ver st k) /\
+                     exists i, (i < N)%nat /\ eff i /\ okey i = k /\ applied (f_phase st i) (f_ver st k) /\
                                f_fs st k = effect (opn ops i);
-  ap_le : forall i v, mut i -> applied (f_phase st i) v -> v <= f_ver st (okey i);
+  ap_le : forall i v, eff i -> applied (f_phase st i) v -> v <= f_ver st (okey i);
   lk : forall k, match f_locks st k with
        | None => forall i, (i < N)%nat -> okey i = k -> holds (f_phase st i) = false
        | Some e => NoDup (l_holders e) /\ l_holders e <> [] /\
@@ -55,6 +56,9 @@ Proof.
   destruct (Nat.eqb_spec j i); [contradiction|]. unfold mut in Hm. rewrite Hm in H. unfold okey in Hk.
   rewrite Hk, Z.eqb_refl in H. cbn in H. destruct (is_fetched (f_phase st j)); auto.
 Qed.
+
+Lemma eff_mut i : eff i -> mut i.
+Proof. unfold eff, mut, is_eff, is_mut. destruct (f_kind (opn ops i)); auto; discriminate. Qed.
 
 Lemma mut_lt i : mut i -> (i < N)%nat.
 Proof.
@@ -114,7 +118,7 @@ Proof.
   - rewrite E. assert (pver (f_phase st i) = Some v) by (rewrite Hp; reflexivity).
     specialize (v_range0 _ _ Hm H). lia.
   - assert (j <> i) by (intros ->; destruct D as [D|D]; rewrite Hp in D; discriminate).
-    apply (fe_gt0 i v Hm Hp j (f_ver st (okey i)) B H C).
+    apply (fe_gt0 i v Hm Hp j (f_ver st (okey i)) (eff_mut _ B) H C).
     destruct D as [D|D]; rewrite D; unfold reffed; auto.
 Qed.
 
@@ -201,7 +205,7 @@ Proof. intros I H. destruct (Nat.lt_ge_cases i N); auto. exfalso. apply H. apply
 (* stale write / read: only the phase (and the observation) change *)
 Lemma step_exec_phase st i v obs' :
   fs_inv st -> f_phase st i = PRef v ->
-  (mut i -> v <= f_ver st (okey i)) ->
+  (eff i -> v <= f_ver st (okey i)) ->
   (forall j x, obs' j = Some x -> f_obs st j = Some x \/ (j = i /\ x = f_fs st (okey i))) ->
   fs_inv {| f_next := f_next st; f_locks := f_locks st; f_fs := f_fs st; f_ver := f_ver st;
             f_phase := updn (f_phase st) i (PExec v); f_obs := obs' |}.
@@ -232,20 +236,20 @@ Proof.
     + destruct (obs_ok0 _ _ Ho') as [?|(j' & w & A & B & C & D & E & w' & F)]; [left; auto|right].
       exists j', w. repeat split; auto. up. eqn j' i; fin. destruct F as [F|F]; rewrite Pi in F; discriminate.
     + destruct (fv_wit0 (okey i)) as [(_ & ->)|(j' & A & B & C & D & E)]; [left; auto|].
-      rewrite E. unfold effect. destruct (f_kind (opn ops j')) eqn:K; [right|left; auto|left; auto].
-      exists j', v0. repeat split; auto. exists (f_ver st (okey i)). up. eqn j' i; fin.
+      rewrite E. unfold effect. destruct (f_kind (opn ops j')) eqn:K; [right|left; auto|left; auto|left; auto].
+      exists j', v0. repeat split; auto using eff_mut. exists (f_ver st (okey i)). up. eqn j' i; fin.
       destruct D as [D|D]; rewrite Pi in D; discriminate.
 Qed.
 
 (* effective write *)
 Lemma step_exec_write st i v e :
-  fs_inv st -> f_phase st i = PRef v -> mut i -> f_locks st (okey i) = Some e -> l_last e < v ->
+  fs_inv st -> f_phase st i = PRef v -> mut i -> eff i -> f_locks st (okey i) = Some e -> l_last e < v ->
   fs_inv {| f_next := f_next st;
             f_locks := updz (f_locks st) (okey i) (Some {| l_last := v; l_holders := l_holders e |});
             f_fs := updz (f_fs st) (okey i) (effect (opn ops i)); f_ver := updz (f_ver st) (okey i) v;
             f_phase := updn (f_phase st) i (PExec v); f_obs := f_obs st |}.
 Proof.
-  intros I Pi Hmi He Hlast.
+  intros I Pi Hmi Hei He Hlast.
   assert (Hlt : (i < N)%nat) by (eapply phase_lt; eauto; congruence).
   pose proof (holder_in _ _ _ _ I Pi He Hlt) as Hin.
   assert (Hgt : f_ver st (okey i) < v).
@@ -290,14 +294,18 @@ Proof.
   destruct (f_phase st i) eqn:Pi; try discriminate.
   destruct (f_locks st (okey i)) as [e|] eqn:He; [|discriminate].
   destruct (is_mut (opn ops i)) eqn:Hm.
-  - destruct (Z.leb_spec ver (l_last e)); inversion H; subst st'.
-    + apply step_exec_phase; auto.
-      intros _. pose proof (lk _ I (okey i)) as L. rewrite He in L.
-      destruct L as (_ & _ & _ & [D|(D1 & D2)]); [lia|].
-      assert (1 <= ver) by (apply (v_range _ I i); auto; rewrite Pi; reflexivity). lia.
-    + apply step_exec_write; auto.
+  - destruct (is_eff (opn ops i)) eqn:He'; cbn [negb orb] in H.
+    + rewrite orb_false_r in H. destruct (Z.leb_spec ver (l_last e)); inversion H; subst st'.
+      * apply step_exec_phase; auto.
+        intros _. pose proof (lk _ I (okey i)) as L. rewrite He in L.
+        destruct L as (_ & _ & _ & [D|(D1 & D2)]); [lia|].
+        assert (1 <= ver) by (apply (v_range _ I i); auto; rewrite Pi; reflexivity). lia.
+      * apply step_exec_write; auto.
+    + (* the callback fails: nothing but the phase changes; in particular no version is recorded *)
+      rewrite orb_true_r in H. inversion H; subst st'. apply step_exec_phase; auto.
+      intros X. unfold eff in X. congruence.
   - inversion H; subst st'. apply step_exec_phase; auto.
-    + intros X. unfold mut in X. congruence.
+    + intros X. apply eff_mut in X. unfold mut in X. congruence.
     + intros j x Hx. unfold updn in Hx. destruct (Nat.eqb_spec j i); [subst; inversion Hx; right; auto|left; auto].
 Qed.
 
@@ -412,7 +420,8 @@ Proof.
   - fold (okey i) in H. destruct (f_phase st i) eqn:Pi; try discriminate.
     destruct (f_locks st (okey i)) as [e|] eqn:He; [|discriminate].
     destruct (is_mut (opn ops i)) eqn:Hm; [|inversion H; subst; cbn; split; auto; lia].
-    destruct (Z.leb_spec ver (l_last e)); inversion H; subst; cbn; [split; auto; lia|].
+    destruct ((ver <=? l_last e) || negb (is_eff (opn ops i))) eqn:Dc; inversion H; subst; cbn; [split; auto; lia|].
+    apply orb_false_iff in Dc. destruct Dc as (Dc & _). apply Z.leb_gt in Dc.
     assert (Hlt : (i < N)%nat) by (eapply phase_lt; eauto; congruence).
     pose proof (holder_in _ _ _ _ I Pi He Hlt) as Hin.
     assert (Hgt : f_ver st (okey i) < ver).
@@ -426,10 +435,10 @@ Theorem versioned_writes_in_issue_order : forall sched st,
   fs_inv st /\
   (all_done ops st = true ->
    forall k, f_locks st k = None /\
-     ((f_fs st k = None /\ forall i, (i < N)%nat -> is_mut (opn ops i) = true -> f_key (opn ops i) <> k) \/
-      exists i v, (i < N)%nat /\ is_mut (opn ops i) = true /\ f_key (opn ops i) = k /\
+     ((f_fs st k = None /\ forall i, (i < N)%nat -> is_eff (opn ops i) = true -> f_key (opn ops i) <> k) \/
+      exists i v, (i < N)%nat /\ is_eff (opn ops i) = true /\ f_key (opn ops i) = k /\
                   f_phase st i = PDone v /\ f_fs st k = effect (opn ops i) /\
-                  forall j w, is_mut (opn ops j) = true -> f_key (opn ops j) = k -> f_phase st j = PDone w -> w <= v)).
+                  forall j w, is_eff (opn ops j) = true -> f_key (opn ops j) = k -> f_phase st j = PDone w -> w <= v)).
 Proof.
   intros sched st R. pose proof (frun_from_inv _ _ _ finit_inv R) as I. split; auto.
   intros AD k. pose proof (all_done_spec _ AD) as Done. split.
@@ -439,7 +448,7 @@ Proof.
   - destruct (fv_wit _ I k) as [(E0 & F0)|(i & A & B & C & D & E)].
     + left. split; auto. intros i Hi Hm Hk. destruct (Done i Hi) as (v & E).
       assert (v <= f_ver st (okey i)) by (apply (ap_le _ I); auto; rewrite E; right; reflexivity).
-      assert (1 <= v) by (apply (v_range _ I i); auto; rewrite E; reflexivity).
+      assert (1 <= v) by (apply (v_range _ I i); auto using eff_mut; rewrite E; reflexivity).
       unfold okey in H. rewrite Hk in H. lia.
     + right. exists i, (f_ver st k). repeat split; auto.
       * destruct (Done i A) as (v & E'). destruct D as [D|D]; rewrite E' in D; inversion D; subst. exact E'.
